@@ -82,7 +82,7 @@ IP6s == {Z12 \o <<0, 0, 0, 0>>, Z12 \o <<0, 0, 0, 1>>,
 SockPorts == {0, 1, 1023, 1024, 65535}
 \* zone: "" none, "@lo" the loopback interface's name, decimal strings: interface indices that (normally) have no interface
 Zones == {"", "@lo", "7", "12", "345", "4294967"}
-BadIPs == {<<1, 2, 3>>, <<1, 2, 3, 4, 5>>, <<1, 2, 3, 4, 5, 6, 7, 8, 9, 10, 11, 12, 13, 14, 15, 16, 17>>}
+BadIPs == {<<>>, <<1, 2, 3>>, <<1, 2, 3, 4, 5>>, <<1, 2, 3, 4, 5, 6, 7, 8, 9, 10, 11, 12, 13, 14, 15, 16, 17>>}
 SockVectors ==
     {[kind |-> k, ip |-> ip, port |-> p, zone |-> "", expect |-> "same"] : k \in {"tcp", "udp"}, ip \in IP4s, p \in SockPorts}
     \cup {[kind |-> k, ip |-> ip, port |-> p, zone |-> z, expect |-> "same"] : k \in {"tcp", "udp"}, ip \in IP6s, p \in SockPorts, z \in Zones}
